@@ -209,6 +209,55 @@ func rulesC14(c *Ctx) {
 		}
 		return out
 	}
+	// the latch may also be a channel field of the task: armed by make (in the constructor),
+	// released by close, awaited by a receive
+	chanFieldOf := func(v ssa.Value) string {
+		u, ok := v.(*ssa.UnOp)
+		if !ok || u.Op != token.MUL {
+			return ""
+		}
+		fa, ok := u.X.(*ssa.FieldAddr)
+		if !ok || !strings.Contains(fieldName(fa), "tasks.Task.") {
+			return ""
+		}
+		if _, isChan := u.Type().Underlying().(*types.Chan); !isChan {
+			return ""
+		}
+		return fieldName(fa)
+	}
+	latchChan := ""
+	chanOps := func(f *ssa.Function, what string) []ssa.Instruction {
+		var out []ssa.Instruction
+		eachInstr(f, func(_ *ssa.BasicBlock, _ int, in ssa.Instruction) {
+			switch x := in.(type) {
+			case *ssa.Store:
+				if what != "arm" {
+					return
+				}
+				if _, isMk := x.Val.(*ssa.MakeChan); !isMk {
+					return
+				}
+				if fa, ok := x.Addr.(*ssa.FieldAddr); ok && strings.Contains(fieldName(fa), "tasks.Task.") {
+					if _, fresh := fa.X.(*ssa.Alloc); fresh && (latchChan == "" || latchChan == fieldName(fa)) {
+						latchChan = fieldName(fa)
+						out = append(out, in)
+					}
+				}
+			case *ssa.Call:
+				if what != "release" {
+					return
+				}
+				if b, ok := x.Call.Value.(*ssa.Builtin); ok && b.Name() == "close" && chanFieldOf(x.Call.Args[0]) != "" && chanFieldOf(x.Call.Args[0]) == latchChan {
+					out = append(out, in)
+				}
+			case *ssa.UnOp:
+				if what == "wait" && x.Op == token.ARROW && chanFieldOf(x.X) != "" && chanFieldOf(x.X) == latchChan {
+					out = append(out, in)
+				}
+			}
+		})
+		return out
+	}
 	var countOnD func(f *ssa.Function, is func(in ssa.Instruction, deferred bool) bool, depth int) (min, max int)
 	countOn := func(f *ssa.Function, is func(in ssa.Instruction, deferred bool) bool) (min, max int) {
 		return countOnD(f, is, 0)
@@ -247,38 +296,62 @@ func rulesC14(c *Ctx) {
 	}
 	{
 		adds := wgCalls(newTask, "Add")
+		var armI []ssa.Instruction
+		for _, a := range adds {
+			armI = append(armI, a.Instr)
+		}
+		if len(adds) == 0 {
+			armI = chanOps(newTask, "arm")
+		}
 		mn, mx := countOn(newTask, func(in ssa.Instruction, d bool) bool {
-			for _, a := range adds {
-				if a.Instr == in {
+			for _, a := range armI {
+				if a == in {
 					return true
 				}
 			}
 			return false
 		})
-		okArm := len(adds) == 1 && mn == 1 && mx == 1
-		if okArm {
+		okArm := len(armI) == 1 && mn == 1 && mx == 1
+		if okArm && len(adds) == 1 {
 			if k, ok := constInt(adds[0].Arg(0)); !ok || k != 1 {
 				okArm = false
 			}
 		}
 		c.Check(okArm, "R3", "tasks.NewTask arms the latch once", newTask.Pos(), "wg.Add(1) exactly once on every path", "the completion latch is not armed exactly once — Wait returns early or never")
-		dones := wgCalls(tclose, "Done")
+		var dones []ssa.Instruction
+		relOf := func(g *ssa.Function) []ssa.Instruction {
+			var out []ssa.Instruction
+			for _, a := range wgCalls(g, "Done") {
+				out = append(out, a.Instr)
+			}
+			if latchChan != "" {
+				out = append(out, chanOps(g, "release")...)
+			}
+			return out
+		}
+		dones = relOf(tclose)
 		for _, g := range reachableSamePkg(tclose, 2) {
 			if g.Object() == nil || !g.Object().Exported() {
-				dones = append(dones, wgCalls(g, "Done")...)
+				dones = append(dones, relOf(g)...)
 			}
 		}
 		mn, mx = countOn(tclose, func(in ssa.Instruction, d bool) bool {
 			for _, a := range dones {
-				if a.Instr == in {
+				if a == in {
 					return true
 				}
 			}
 			return false
 		})
 		c.Check(len(dones) >= 1 && mn == 1 && mx == 1, "R3", "tasks.(*Task).Close releases the latch once", tclose.Pos(), "wg.Done() exactly once on every path", "Close does not release the latch exactly once on every path — waiters hang (or: negative WaitGroup counter)")
-		ws := wgCalls(twait, "Wait")
-		okW := len(ws) == 1 && len(MustPass(twait, nil, func(in ssa.Instruction) bool { return in == ws[0].Instr })) == 0
+		var ws []ssa.Instruction
+		for _, a := range wgCalls(twait, "Wait") {
+			ws = append(ws, a.Instr)
+		}
+		if len(ws) == 0 && latchChan != "" {
+			ws = chanOps(twait, "wait")
+		}
+		okW := len(ws) == 1 && len(MustPass(twait, nil, func(in ssa.Instruction) bool { return in == ws[0] })) == 0
 		c.Check(okW, "R3", "tasks.(*Task).Wait waits for the latch", twait.Pos(), "wg.Wait() on every path", "Task.Wait can return before the task finished")
 		// runGo defers Close first
 		var closeDefer ssa.Instruction
@@ -350,10 +423,25 @@ func rulesC14(c *Ctx) {
 		if vc == nil || reg == nil {
 			c.Bad("R4", "tasks.(*TaskManager).Create validates the wait list", create.Pos(), "cannot find validWaitList call / registration in Create; cannot certify")
 		} else {
-			c.Check(facts.KnownNil(reg.Block(), vc, true), "R4", "tasks.(*TaskManager).Create validates the wait list", reg.Pos(), "registration is on the nil edge of validWaitList",
+			// validated, or nothing to validate: the task's wait list is known to be empty
+			isWL := waitListExprOf(create, vc)
+			validated := func(b *ssa.BasicBlock) bool {
+				return facts.HoldsOnAllEdges(b, func(fs factSet) bool {
+					if knownNilIn(fs, vc, true) {
+						return true
+					}
+					for k := range fs {
+						if lenZeroOf(k.v, k.pol, isWL) {
+							return true
+						}
+					}
+					return false
+				})
+			}
+			c.Check(validated(reg.Block()), "R4", "tasks.(*TaskManager).Create validates the wait list", reg.Pos(), "registration is on the nil edge of validWaitList (or where the wait list is empty)",
 				"a task is registered without its wait list having been validated — it can wait for a task that never exists")
 			for _, r := range returnsOf(create) {
-				if isNilConst(resolve(r.Results[len(r.Results)-1])) && !facts.KnownNil(r.Block(), vc, true) {
+				if isNilConst(resolve(r.Results[len(r.Results)-1])) && !validated(r.Block()) {
 					c.Bad("R4", "tasks.(*TaskManager).Create validates the wait list", r.Pos(), "Create returns success on a path where validWaitList did not return nil")
 				}
 			}
@@ -748,4 +836,151 @@ func nilReturnProps(h *ssa.Function, depth int) map[string]bool {
 		}
 	}
 	return res
+}
+
+// fieldPathOf: v reads root.f1.f2...: returns the root value and the field names.
+func fieldPathOf(v ssa.Value) (ssa.Value, []string) {
+	var path []string
+	for d := 0; d < 8; d++ {
+		switch x := v.(type) {
+		case *ssa.UnOp:
+			if x.Op != token.MUL {
+				return v, path
+			}
+			v = x.X
+		case *ssa.FieldAddr:
+			n := fieldName(x)
+			path = append([]string{n[strings.LastIndex(n, ".")+1:]}, path...)
+			v = x.X
+		case *ssa.Field:
+			n := fieldNameV(x)
+			path = append([]string{n[strings.LastIndex(n, ".")+1:]}, path...)
+			v = x.X
+		default:
+			return v, path
+		}
+	}
+	return v, path
+}
+
+// waitListExprOf: recogniser for "the wait list of the task handed to validWaitList" inside
+// Create: task.WaitList(), or the same data read from the value the task was built from
+// (the constructor stores parameter k in field f, WaitList returns recv.f.g => arg_k.g).
+func waitListExprOf(create *ssa.Function, vc *ssa.Call) func(ssa.Value) bool {
+	var task ssa.Value
+	for _, a := range vc.Call.Args {
+		if pt, ok := a.Type().Underlying().(*types.Interface); ok && pt != nil {
+			if mi, isMI := resolve(a).(*ssa.MakeInterface); isMI {
+				task = resolve(mi.X)
+			}
+		}
+	}
+	if task == nil && len(vc.Call.Args) >= 3 {
+		task = resolve(vc.Call.Args[2])
+	}
+	var argRoot ssa.Value
+	var argPath, accPath []string
+	if ctor, ok := task.(*ssa.Call); ok && ctor.Call.StaticCallee() != nil && ctor.Call.StaticCallee().Blocks != nil {
+		cf := ctor.Call.StaticCallee()
+		// the accessor
+		var wl *ssa.Function
+		if pt, ok := cf.Signature.Results().At(0).Type().(*types.Pointer); ok {
+			if nt, ok := pt.Elem().(*types.Named); ok {
+				for i := 0; i < nt.NumMethods(); i++ {
+					if nt.Method(i).Name() == "WaitList" {
+						wl = cf.Prog.FuncValue(nt.Method(i))
+					}
+				}
+			}
+		}
+		if wl != nil && wl.Blocks != nil && len(returnsOf(wl)) == 1 {
+			root, path := fieldPathOf(returnsOf(wl)[0].Results[0])
+			if root == ssa.Value(wl.Params[0]) && len(path) >= 2 {
+				// which constructor parameter fills path[0]?
+				eachInstr(cf, func(_ *ssa.BasicBlock, _ int, in ssa.Instruction) {
+					st, ok := in.(*ssa.Store)
+					if !ok {
+						return
+					}
+					fa, ok := st.Addr.(*ssa.FieldAddr)
+					if !ok {
+						return
+					}
+					n := fieldName(fa)
+					if n[strings.LastIndex(n, ".")+1:] != path[0] {
+						return
+					}
+					if _, fresh := fa.X.(*ssa.Alloc); !fresh {
+						return
+					}
+					pv := resolve(st.Val)
+					for pi, p := range cf.Params {
+						if pv == ssa.Value(p) && pi < len(ctor.Call.Args) {
+							argRoot, argPath = fieldPathOf(ctor.Call.Args[pi])
+							accPath = path[1:]
+						}
+					}
+				})
+			}
+		}
+	}
+	return func(v ssa.Value) bool {
+		if call, ok := v.(*ssa.Call); ok {
+			name := ""
+			var recv ssa.Value
+			if call.Call.IsInvoke() {
+				name, recv = call.Call.Method.Name(), call.Call.Value
+			} else if f := call.Call.StaticCallee(); f != nil && f.Signature.Recv() != nil && len(call.Call.Args) > 0 {
+				name, recv = f.Name(), call.Call.Args[0]
+			}
+			if name == "WaitList" && recv != nil {
+				r := resolve(recv)
+				if mi, ok := r.(*ssa.MakeInterface); ok {
+					r = resolve(mi.X)
+				}
+				return r == task
+			}
+			return false
+		}
+		if argRoot == nil {
+			return false
+		}
+		root, path := fieldPathOf(v)
+		if root != argRoot || len(path) != len(argPath)+len(accPath) {
+			return false
+		}
+		want := append(append([]string{}, argPath...), accPath...)
+		for i := range want {
+			if want[i] != path[i] {
+				return false
+			}
+		}
+		return true
+	}
+}
+
+// lenZeroOf: condition c with polarity pol says len(x) == 0 for an x accepted by isX.
+func lenZeroOf(c ssa.Value, pol bool, isX func(ssa.Value) bool) bool {
+	bo, ok := c.(*ssa.BinOp)
+	if !ok {
+		return false
+	}
+	var other ssa.Value
+	if kv, ok := constInt(bo.Y); ok && kv == 0 {
+		other = bo.X
+	} else {
+		return false
+	}
+	zero := (bo.Op == token.EQL && pol) || (bo.Op == token.NEQ && !pol) || (bo.Op == token.GTR && !pol) || (bo.Op == token.LEQ && pol)
+	if !zero {
+		return false
+	}
+	lc, ok := other.(*ssa.Call)
+	if !ok {
+		return false
+	}
+	if b, ok := lc.Call.Value.(*ssa.Builtin); !ok || b.Name() != "len" {
+		return false
+	}
+	return isX(lc.Call.Args[0])
 }
